@@ -104,6 +104,16 @@ def fold_directions(ctx: Ctx, idx, cm, gac, msg_loops) -> int:
                         v = it.eval(e, env)
                     except Raised as ex:
                         raise AnalysisError(f"{P_CLASSES}:{e.lineno}: attribute expression raises {ex.exc_name} when folded")
+                    except AnalysisError as ex:
+                        free = sorted({n_.id for n_ in ast.walk(e) if isinstance(n_, ast.Name)} - set(env) - set(it.globals))
+                        if free:
+                            # the expression reads a variable that this loop does not bind: at run time it holds
+                            # whatever an earlier loop left there
+                            ctx.fail("direction-folded", f"generate_all_classes:{which}:{d}:reads:{','.join(free)}",
+                                     f"a class attribute emitted for each element of {which} reads {free}, which the loop over "
+                                     f"{which} does not bind (left over from an earlier loop)", P_CLASSES, e.lineno)
+                            continue
+                        raise
                     if isinstance(v, str):
                         folded.append(v)
             dirs = [v for v in folded if v.startswith("[Direction(")]
